@@ -716,6 +716,207 @@ Proof.
     rewrite H1, H2, H3. auto.
 Qed.
 
+
+(** the walk over an explicit list of target names (used to relate the
+    sequential walk to the interleaving model of [once_weak_partial]) *)
+Fixpoint walk_subs_names (c : cache) (names : list string) (pf : option gpath)
+  (subs : list (option gpath)) : list resp * bool :=
+  match subs with
+  | [] => ([], true)
+  | sp :: r =>
+      match complete_path pf sp with
+      | None => ([], false)
+      | Some full =>
+          let here := flat_map (fun t => map (fun pv => RUpd (snd pv))
+                                  (match assoc t c with Some tr => query tr full | None => [] end))
+                               names in
+          let rest := walk_subs_names c names pf r in
+          (here ++ fst rest, snd rest)
+      end
+  end.
+
+(** * ONCE with concurrent writers (partial)
+
+    While the walk runs, writers move the cache through the states [hist].
+    The walk is one tree query per subscription and selected target; what a
+    query that overlaps writes may report is taken as a hypothesis
+    ([weak_query], the weak query specification that C10 establishes for
+    ctree): everything reported was stored under a matching path in some state
+    of the history, and every matching path that holds a leaf in every state
+    is reported.  The set of targets does not change during the call. *)
+
+Definition trees_of (hist : list cache) (t : string) : list (tree noti) :=
+  flat_map (fun c => match assoc t c with Some tr => [tr] | None => [] end) hist.
+
+Definition weak_query (trs : list (tree noti)) (q : path) (l : list (path * noti)) : Prop :=
+  (forall p v, In (p, v) l -> qmatch q p = true /\ exists tr, In tr trs /\ lookup tr p = Some v)
+  /\ (forall p, qmatch q p = true -> (forall tr, In tr trs -> lookup tr p <> None) ->
+                exists v, In (p, v) l).
+
+(** the atomic query is one of the behaviours [weak_query] allows *)
+Lemma query_is_weak (tr : tree noti) q : wf_tree tr -> weak_query [tr] q (query tr q).
+Proof.
+  intros Hwf. split.
+  - intros p v H. apply query_spec in H as [H1 H2]; [|assumption]. split; [assumption|].
+    exists tr. split; [now left|assumption].
+  - intros p Hm Hall. destruct (lookup tr p) as [v|] eqn:E.
+    + exists v. apply query_spec; auto.
+    + exfalso. apply (Hall tr); [now left|assumption].
+Qed.
+
+Inductive conc_walk (hist : list cache) (names : list string) (pf : option gpath)
+  : list (option gpath) -> list resp -> Prop :=
+| cw_nil : conc_walk hist names pf [] []
+| cw_cons sp full r parts rest :
+    complete_path pf sp = Some full ->
+    Forall2 (fun t l => weak_query (trees_of hist t) full l) names parts ->
+    conc_walk hist names pf r rest ->
+    conc_walk hist names pf (sp :: r)
+              (map (fun pv => RUpd (snd pv)) (List.concat parts) ++ rest).
+
+Lemma in_trees_of hist t tr :
+  In tr (trees_of hist t) <-> exists c, In c hist /\ assoc t c = Some tr.
+Proof.
+  unfold trees_of. rewrite in_flat_map. split.
+  - intros (c & Hc & H). exists c. split; [assumption|].
+    destruct (assoc t c) as [tr'|]; [|contradiction]. destruct H as [<-|[]]. reflexivity.
+  - intros (c & Hc & H). exists c. split; [assumption|]. rewrite H. now left.
+Qed.
+
+Lemma Forall2_concat_in {A B} (R : A -> list B -> Prop) xs ls b :
+  Forall2 R xs ls -> In b (List.concat ls) -> exists x l, In x xs /\ R x l /\ In b l.
+Proof.
+  induction 1 as [|x l xs ls HR _ IH]; cbn; [intros []|].
+  rewrite in_app_iff. intros [H|H].
+  - exists x, l. auto.
+  - destruct (IH H) as (x' & l' & H1 & H2 & H3). exists x', l'. auto.
+Qed.
+
+Lemma Forall2_in_l {A B} (R : A -> B -> Prop) xs ys x :
+  Forall2 R xs ys -> In x xs -> exists y, In y ys /\ R x y.
+Proof.
+  induction 1 as [|a b xs ys HR _ IH]; cbn; [intros []|].
+  intros [<-|H]; [exists b; auto|]. destruct (IH H) as (y & H1 & H2). exists y. auto.
+Qed.
+
+(** ONCE under concurrent writers: (1) every update sent is a leaf that was
+    stored, under a path one of the subscriptions matches, in some state the
+    cache went through during the call (nothing that never matched; a value
+    the leaf held during the call); (2) every path of a selected target that a
+    subscription matches and that holds a leaf throughout the call is
+    delivered, with a value it held during the call. *)
+Lemma once_weak_partial hist names pf subs ups :
+  conc_walk hist names pf subs ups ->
+  (forall n, In (RUpd n) ups ->
+     exists c t tr p sp full,
+       In c hist /\ In t names /\ assoc t c = Some tr /\ lookup tr p = Some n
+       /\ In sp subs /\ complete_path pf sp = Some full /\ qmatch full p = true)
+  /\ (forall t p sp full,
+        In t names -> In sp subs -> complete_path pf sp = Some full -> qmatch full p = true ->
+        (forall tr, In tr (trees_of hist t) -> lookup tr p <> None) ->
+        exists n c tr, In (RUpd n) ups /\ In c hist /\ assoc t c = Some tr /\ lookup tr p = Some n)
+  /\ ~ In RSync ups.
+Proof.
+  induction 1 as [|sp full r parts rest Hc Hq Hw IH].
+  - split; [intros n []|]. split; [|tauto]. intros t p sp full _ [].
+  - destruct IH as (IH1 & IH2 & IH3). split; [|split].
+    + intros n. rewrite in_app_iff. intros [H|H].
+      * apply in_map_iff in H as ([p v] & E & Hin). cbn in E. inversion E; subst v.
+        destruct (Forall2_concat_in _ _ _ _ Hq Hin) as (t & l & Ht & [Hl _] & Hpl).
+        destruct (Hl _ _ Hpl) as (Hm & tr & Htr & Hlk).
+        apply in_trees_of in Htr as (c & Hcin & Ha).
+        exists c, t, tr, p, sp, full. repeat split; auto. now left.
+      * destruct (IH1 n H) as (c & t & tr & p & sp' & full' & H1 & H2 & H3 & H4 & H5 & H6 & H7).
+        exists c, t, tr, p, sp', full'. repeat split; auto. now right.
+    + intros t p sp' full' Ht [<-|Hsp] Hc' Hm Hall.
+      * rewrite Hc in Hc'. inversion Hc'; subst full'.
+        destruct (Forall2_in_l _ _ _ _ Hq Ht) as (l & Hl & [Hw1 Hw2]).
+        destruct (Hw2 p Hm Hall) as (v & Hv).
+        destruct (Hw1 _ _ Hv) as (_ & tr & Htr & Hlk).
+        apply in_trees_of in Htr as (c & Hcin & Ha).
+        exists v, c, tr. repeat split; auto.
+        apply in_app_iff. left. apply in_map_iff. exists (p, v). split; [reflexivity|].
+        apply in_concat. exists l. auto.
+      * destruct (IH2 t p sp' full' Ht Hsp Hc' Hm Hall) as (n & c & tr & H1 & H2 & H3 & H4).
+        exists n, c, tr. repeat split; auto. apply in_app_iff. now right.
+    + rewrite in_app_iff. intros [H|H]; [|contradiction].
+      apply in_map_iff in H as (pv & E & _). discriminate.
+Qed.
+
+(** the sequential walk of the model is the instance of [conc_walk] in which
+    the history is the single, unchanging cache *)
+Lemma walk_subs_is_conc_walk c names pf subs :
+  wf_cache c -> (forall t, In t names -> exists tr, assoc t c = Some tr) ->
+  snd (walk_subs_names c names pf subs) = true ->
+  conc_walk [c] names pf subs (fst (walk_subs_names c names pf subs)).
+Proof.
+  intros Hwf Hnames. induction subs as [|sp r IH]; cbn; [constructor|].
+  destruct (complete_path pf sp) as [full|] eqn:E; cbn; [|discriminate].
+  intros Hok. specialize (IH Hok).
+  set (parts := map (fun t => match assoc t c with Some tr => query tr full | None => [] end) names).
+  replace (flat_map _ names) with (map (fun pv => RUpd (snd pv)) (List.concat parts)).
+  - econstructor; eauto. subst parts. clear IH Hok.
+    induction names as [|t ns IHn]; cbn; constructor.
+    + destruct (Hnames t (or_introl eq_refl)) as [tr Ha]. rewrite Ha.
+      unfold trees_of. cbn. rewrite ?Ha. cbn. apply query_is_weak.
+      eapply wf_cache_tree; [exact Hwf|]. apply assoc_In. exact Ha.
+    + apply IHn. intros t' Ht'. apply Hnames. now right.
+  - subst parts. clear. induction names as [|t ns IHn]; cbn; [reflexivity|].
+    rewrite map_app, IHn. reflexivity.
+Qed.
+
+Definition sel_names (c : cache) (rt : string) : list string :=
+  if String.eqb rt "*" then keys c
+  else match assoc rt c with Some _ => [rt] | None => [] end.
+
+Lemma flat_map_ext_in' {A B} (f g : A -> list B) l :
+  (forall x, In x l -> f x = g x) -> flat_map f l = flat_map g l.
+Proof.
+  induction l as [|a l IH]; cbn; [reflexivity|]. intros H.
+  rewrite (H a (or_introl eq_refl)), IH; [reflexivity|]. intros x Hx. apply H. now right.
+Qed.
+
+Lemma flat_map_keys_assoc {B} (f : tree noti -> list B) (c : cache) :
+  NoDup (keys c) ->
+  flat_map f (map snd c)
+  = flat_map (fun t => match assoc t c with Some tr => f tr | None => [] end) (keys c).
+Proof.
+  induction c as [|[k tr] c IH]; cbn; [reflexivity|]. intros Hnd.
+  inversion Hnd as [|? ? Hni Hnd']; subst. rewrite String.eqb_refl. f_equal.
+  rewrite (IH Hnd'). apply flat_map_ext_in'. intros t Ht.
+  destruct (String.eqb_spec t k) as [->|_]; [contradiction|reflexivity].
+Qed.
+
+(** the model's walk is the walk over the names of the selected targets *)
+Lemma walk_subs_names_eq c rt pf subs :
+  NoDup (keys c) -> walk_subs c rt pf subs = walk_subs_names c (sel_names c rt) pf subs.
+Proof.
+  intros Hnd. induction subs as [|sp r IH]; cbn; [reflexivity|].
+  destruct (complete_path pf sp) as [full|]; [|reflexivity]. rewrite IH. f_equal. f_equal.
+  unfold sel_trees, sel_names. destruct (String.eqb rt "*").
+  - rewrite (flat_map_keys_assoc (fun tr => map (fun pv => RUpd (snd pv)) (query tr full)) c Hnd).
+    apply flat_map_ext_in'. intros t _. now destruct (assoc t c).
+  - destruct (assoc rt c) as [tr|] eqn:Ha; cbn; [|reflexivity]. now rewrite Ha.
+Qed.
+
+Lemma sel_names_assoc c rt t : In t (sel_names c rt) -> exists tr, assoc t c = Some tr.
+Proof.
+  unfold sel_names. destruct (String.eqb rt "*").
+  - apply in_keys_assoc.
+  - destruct (assoc rt c) as [tr|] eqn:Ha; [|intros []]. intros [<-|[]]. eauto.
+Qed.
+
+(** hence the sequential ONCE walk is one of the interleavings [conc_walk]
+    describes (the one without writers): the hypotheses of
+    [once_weak_partial] are satisfiable by the model itself *)
+Lemma walk_subs_conc c rt pf subs :
+  wf_cache c -> snd (walk_subs c rt pf subs) = true ->
+  conc_walk [c] (sel_names c rt) pf subs (fst (walk_subs c rt pf subs)).
+Proof.
+  intros Hwf. rewrite (walk_subs_names_eq c rt pf subs (proj1 Hwf)).
+  apply walk_subs_is_conc_walk; [assumption|]. apply sel_names_assoc.
+Qed.
+
 Lemma never_sends_denied_user allow u rq st ops g n :
   In g (fst (run allow (ACLUser (Some u)) rq st ops)) -> In (RUpd n) (fst g) ->
   allow u (g_target (n_prefix n)) = true.
